@@ -697,7 +697,8 @@ def h5_position_table(ctx, rid='H5'):
     enter = lambda path: path.startswith('token::ui_token::') or path.startswith('<token::ui_token::')
     n = 0
     bad = {}
-    for k in range(0, 4):
+    kmax = 4 if (ctx.tier == 'thorough' and ctx.cfg_name == 'dev') else 3
+    for k in range(0, kmax + 1):
         for ws in itertools.product((1, 2, 3, 4), repeat=k):
             line = ('str', ['c%dw%d' % (j + 1, w) for j, w in enumerate(ws)])
             try:
@@ -730,7 +731,7 @@ def h5_position_table(ctx, rid='H5'):
                 return False
     for kind, what in sorted(bad.items()):
         ctx.finding(rid, 'char-map/%s' % kind, what, site=gp.loc)
-    ctx.analysed(rid, '%d (line, boundary) pairs: lines of 0..3 characters of 1..4 bytes' % n)
+    ctx.analysed(rid, '%d (line, boundary) pairs: lines of 0..%d characters of 1..4 bytes' % (n, kmax))
     ctx._h5_ok = not bad
     return not bad
 
